@@ -26,6 +26,8 @@ func main() {
 		os.Exit(cmdRun(os.Args[2:]))
 	case "check":
 		os.Exit(cmdCheck(os.Args[2:]))
+	case "manifest":
+		os.Exit(cmdManifest())
 	case "replay":
 		os.Exit(cmdReplay(os.Args[2:]))
 	default:
